@@ -15,7 +15,7 @@ func init() {
 	register(&propertyDef{
 		id:    "C14",
 		title: "a prepared workflow can be run again and concurrently",
-		rules: []ruleFunc{c14R1, c14R2, c14R3, c14R4, c14R5, c14R6, c14R7},
+		rules: []ruleFunc{c14R1, c14R2, c14R3, c14R4, c14R5, c14R6, c14R7, c14R8},
 		decided: "the run path never writes prepared state: no store, map update or element store whose target belongs to an executableWorkflow, DAGItem, OneOf/OptionalExpression, Lifecycle, Workflow or runnableStep value (R1; the same detector must find the known prepare-time writers, so it cannot pass vacuously); " +
 			"every field of the per-run state is initialised from a fresh allocation, a constant, the caller's arguments or a read-only field of the prepared workflow, the DAG specifically from Clone(), and no mutating graph method is invoked on the prepared DAG (R2); the expression annotations and node data are written only by the tabled prepare functions (R3); " +
 			"(thorough) the pluginsdk schema methods used at run time do not write their receiver (R4). Shared: sub-runs of a prepared workflow get the step context itself, not one a sibling run cancels (R5 = C05.R7).",
@@ -481,6 +481,9 @@ func c14R3(c *Ctx) {
 			if !ok || !fields[fieldAddrVar(fa)] {
 				return
 			}
+			if al, isNew := fa.X.(*ssa.Alloc); isNew && al.Heap {
+				return // field of an object this function is constructing (composite literal): initialisation
+			}
 			n++
 			k := c.fnName(fn) + ":" + fieldAddrVar(fa).Name()
 			cnt[k]++
@@ -489,7 +492,7 @@ func c14R3(c *Ctx) {
 			c.verdict(c.tabledB(c14AnnotationWriters, fn) && !inRun, rule, key, c.instrPos(st), "written by a tabled prepare/parse function", fmt.Sprintf("%s stores %s outside the tabled prepare functions (in run path: %v)", c.fnName(fn), fieldAddrVar(fa).Name(), inRun))
 		})
 	}
-	c.minCount(rule, "annotation stores", n, 6)
+	c.minCount(rule, "annotation stores", n, 5)
 }
 
 // C14.R4 (thorough) schema methods used at run time do not write their receiver.
@@ -685,4 +688,338 @@ func c14R6(c *Ctx) {
 
 func sameContainerType(a ssa.Value, p *ssa.Parameter) bool {
 	return types.Identical(a.Type(), p.Type())
+}
+
+// C14.R8 the expression objects preparation annotates are its own copies.
+//
+// Preparation records DAG node ids on the one-of / optional expression objects inside the step and output data, and the
+// prepared workflow reads them at run time. Those objects come out of the caller's parsed *Workflow. Unless Prepare
+// works on a private copy, preparing the same parsed workflow again — while a workflow prepared from it runs, or twice
+// at once — writes memory another goroutine reads (found defect D22).
+func c14R8(c *Ctx) {
+	const rule = "C14.R8"
+	c.explain("C14.R8 the struct types whose fields the prepare phase annotates on objects it did not create (NodePath, GroupNodePath, ParentNodePath) are all cloned by one copy helper (a function with a type-switch case per such type that returns a new object, new maps and new lists, and hands no reference-typed field of the original to the copy); Prepare reads the data fields of the caller's *Workflow (Steps, Outputs, Output) only as arguments of that helper, stores the results into its own Workflow value before any callee sees it, and passes the caller's pointer to nobody")
+	prep := c.Fn("(*workflow.executor).Prepare")
+	if prep == nil {
+		return
+	}
+	annotated := map[*types.Var]bool{}
+	for _, f := range []*types.Var{
+		c.field(pkgInfer, "OneOfExpression", "NodePath"), c.field(pkgInfer, "OptionalExpression", "GroupNodePath"), c.field(pkgInfer, "OptionalExpression", "ParentNodePath"),
+	} {
+		if f != nil {
+			annotated[f] = true
+		}
+	}
+	// W: types annotated in place (the store's base object is not constructed by the storing function)
+	W := map[*types.Named]string{}
+	for _, fn := range c.RepoFns {
+		if c.excluded(fn) {
+			continue
+		}
+		eachInstr(fn, func(r instrRef) {
+			st, ok := r.I.(*ssa.Store)
+			if !ok {
+				return
+			}
+			fa, ok := st.Addr.(*ssa.FieldAddr)
+			if !ok || !annotated[fieldAddrVar(fa)] {
+				return
+			}
+			if al, isNew := fa.X.(*ssa.Alloc); isNew && al.Heap {
+				return
+			}
+			if pt, ok := fa.X.Type().Underlying().(*types.Pointer); ok {
+				if nt, ok := pt.Elem().(*types.Named); ok {
+					W[nt] = c.fnName(fn)
+				}
+			}
+		})
+	}
+	if len(W) == 0 {
+		c.ok(rule, "annotated-types", c.pos(prep.Pos()), "no expression object is annotated in place: nothing to copy", true)
+		return
+	}
+	// H: the copy helper
+	var helper *ssa.Function
+	var why []string
+	for _, fn := range c.RepoFns {
+		if c.excluded(fn) || len(fn.Params) != 1 || fn.Signature.Results().Len() != 1 || len(fn.Blocks) == 0 {
+			continue
+		}
+		if _, isIface := fn.Params[0].Type().Underlying().(*types.Interface); !isIface {
+			continue
+		}
+		covered, problems := copyHelperCases(fn)
+		all := true
+		for t := range W {
+			if !covered[t.String()] {
+				all = false
+			}
+		}
+		if all && len(covered) > 0 {
+			helper = fn
+			why = problems
+			break
+		}
+	}
+	var names []string
+	for t, by := range W {
+		names = append(names, t.Obj().Name()+" (annotated by "+by+")")
+	}
+	sort.Strings(names)
+	if helper == nil {
+		c.bad(rule, "copy-helper", c.pos(prep.Pos()), "the prepare phase writes node ids into expression objects of the caller's workflow — "+strings.Join(names, ", ")+" — and no copy helper clones all of these types: preparing the same parsed workflow again (while a workflow prepared from it runs, or twice at once) writes memory that another goroutine reads")
+		return
+	}
+	c.verdict(len(why) == 0, rule, "copy-helper", c.pos(helper.Pos()), c.fnName(helper)+" returns a new object for "+strings.Join(names, ", ")+" and new maps / lists for the containers it has a case for",
+		c.fnName(helper)+" does not copy deeply: "+strings.Join(why, "; "))
+	// Prepare: the caller's pointer is only dereferenced
+	param := prep.Params[len(prep.Params)-2]
+	for _, p := range prep.Params {
+		if strings.HasSuffix(p.Type().String(), "workflow.Workflow") {
+			param = p
+		}
+	}
+	var leaks []string
+	var own *ssa.Alloc
+	var ownStore ssa.Instruction
+	for _, ref := range *param.Referrers() {
+		switch x := ref.(type) {
+		case *ssa.FieldAddr, *ssa.DebugRef:
+		case *ssa.UnOp:
+			if x.Op != token.MUL {
+				leaks = append(leaks, c.instrPos(x))
+				continue
+			}
+			for _, r2 := range *x.Referrers() {
+				if st, ok := r2.(*ssa.Store); ok && st.Val == ssa.Value(x) {
+					if al, ok := st.Addr.(*ssa.Alloc); ok {
+						own, ownStore = al, st
+					}
+				}
+			}
+		default:
+			leaks = append(leaks, c.instrPos(ref))
+		}
+	}
+	c.verdict(len(leaks) == 0 && own != nil, rule, "caller-pointer", c.pos(prep.Pos()), "Prepare only dereferences the caller's *Workflow (field reads and one struct copy)",
+		fmt.Sprintf("Prepare hands the caller's *Workflow on (or keeps it) at %s: callees annotate the caller's expression objects", strings.Join(leaks, ", ")))
+	if own == nil {
+		return
+	}
+	// first use of the private value by a callee
+	var uses []ssa.Instruction
+	eachInstr(prep, func(r instrRef) {
+		cc := callCommon(r.I)
+		if cc == nil {
+			return
+		}
+		for _, a := range cc.Args {
+			if a == ssa.Value(own) {
+				uses = append(uses, r.I)
+			}
+		}
+	})
+	for _, fname := range []string{"Steps", "Outputs", "Output"} {
+		f := c.field(pkgWorkflow, "Workflow", fname)
+		if f == nil {
+			continue
+		}
+		key := "copied:" + fname
+		// reads of the caller's field flow only into the helper
+		okRead := true
+		for _, ref := range *param.Referrers() {
+			fa, ok := ref.(*ssa.FieldAddr)
+			if !ok || fieldAddrVar(fa) != f {
+				continue
+			}
+			for _, r2 := range *fa.Referrers() {
+				ld, ok := r2.(*ssa.UnOp)
+				if !ok {
+					if _, dbg := r2.(*ssa.DebugRef); !dbg {
+						okRead = false
+					}
+					continue
+				}
+				for _, r3 := range *ld.Referrers() {
+					cl, ok := r3.(*ssa.Call)
+					if _, dbg := r3.(*ssa.DebugRef); dbg {
+						continue
+					}
+					// any-typed fields are passed as they are, map-typed ones are boxed first
+					if mi, isMI := r3.(*ssa.MakeInterface); isMI {
+						for _, r4 := range *mi.Referrers() {
+							c4, ok := r4.(*ssa.Call)
+							if !ok || c4.Common().StaticCallee() != helper {
+								okRead = false
+							}
+						}
+						continue
+					}
+					if !ok || cl.Common().StaticCallee() != helper {
+						okRead = false
+					}
+				}
+			}
+		}
+		// the private value gets the helper's result before anyone sees it
+		var st *ssa.Store
+		eachInstr(prep, func(r instrRef) {
+			s2, ok := r.I.(*ssa.Store)
+			if !ok {
+				return
+			}
+			fa, ok := s2.Addr.(*ssa.FieldAddr)
+			if !ok || fa.X != ssa.Value(own) || fieldAddrVar(fa) != f {
+				return
+			}
+			if derivesFrom(s2.Val, func(v ssa.Value) bool {
+				cl, ok := v.(*ssa.Call)
+				return ok && cl.Common().StaticCallee() == helper
+			}) {
+				st = s2
+			}
+		})
+		okStore := st != nil && dominates(ownStore, st)
+		if okStore {
+			for _, u := range uses {
+				if !dominates(st, u) {
+					okStore = false
+				}
+			}
+		}
+		c.verdict(okRead && okStore, rule, key, c.pos(prep.Pos()), "Prepare's own Workflow value gets "+c.fnName(helper)+"("+fname+" of the caller's workflow) before any callee sees it; the caller's "+fname+" is read for nothing else",
+			fmt.Sprintf("Prepare works on the caller's %s (read only to copy=%v, copy stored before first use=%v): the expression objects in it are annotated in place", fname, okRead, okStore))
+	}
+	c.minCount(rule, "callees that get Prepare's own workflow", len(uses), 3)
+}
+
+// copyHelperCases: for a function `f(v any) any`, the named struct types *T for which a type-assertion case returns a
+// newly allocated T, and what keeps it from being a deep copy: a case on a map / slice type that returns something
+// else than a new map / slice, or a new T one of whose reference-typed fields receives the original's field as is.
+func copyHelperCases(fn *ssa.Function) (map[string]bool, []string) {
+	covered := map[string]bool{}
+	var problems []string
+	p := fn.Params[0]
+	fresh := func(v ssa.Value) ssa.Value {
+		if mi, ok := v.(*ssa.MakeInterface); ok {
+			v = mi.X
+		}
+		if ct, ok := v.(*ssa.ChangeType); ok {
+			v = ct.X
+		}
+		return v
+	}
+	eachInstr(fn, func(r instrRef) {
+		ta, ok := r.I.(*ssa.TypeAssert)
+		if !ok || ta.X != ssa.Value(p) {
+			return
+		}
+		at := ta.AssertedType
+		// the value of this case
+		var val ssa.Value = ta
+		if ta.CommaOk {
+			for _, ref := range *ta.Referrers() {
+				if ex, ok := ref.(*ssa.Extract); ok && ex.Index == 0 {
+					val = ex
+				}
+			}
+		}
+		// returns reachable only through this case: those that return something derived from val, or are dominated by it
+		eachInstr(fn, func(r2 instrRef) {
+			ret, ok := r2.I.(*ssa.Return)
+			if !ok {
+				return
+			}
+			res := retResults(ret)
+			if len(res) != 1 {
+				return
+			}
+			v := fresh(res[0])
+			switch u := at.Underlying().(type) {
+			case *types.Pointer:
+				nt, ok := u.Elem().(*types.Named)
+				if !ok {
+					return
+				}
+				al, isAlloc := v.(*ssa.Alloc)
+				if !isAlloc || !types.Identical(al.Type(), at) {
+					return
+				}
+				// is this alloc initialised from val? (some field store or whole-struct store derives from val)
+				from := false
+				for _, ref := range *al.Referrers() {
+					switch x := ref.(type) {
+					case *ssa.Store:
+						if x.Addr == ssa.Value(al) && derivesFrom(x.Val, isValue(val)) {
+							from = true
+							// whole-struct copy: reference-typed fields are shared unless overwritten — accept only
+							// structs without map / slice / pointer fields
+							if stt, ok := nt.Underlying().(*types.Struct); ok {
+								for i := 0; i < stt.NumFields(); i++ {
+									switch stt.Field(i).Type().Underlying().(type) {
+									case *types.Map, *types.Slice, *types.Pointer:
+										problems = append(problems, "the copy of "+nt.Obj().Name()+" shares its field "+stt.Field(i).Name()+" with the original")
+									}
+								}
+							}
+						}
+					case *ssa.FieldAddr:
+						for _, r3 := range *x.Referrers() {
+							st, ok := r3.(*ssa.Store)
+							if !ok || st.Addr != ssa.Value(x) || !derivesFrom(st.Val, isValue(val)) {
+								continue
+							}
+							from = true
+							switch st.Val.Type().Underlying().(type) {
+							case *types.Map, *types.Slice, *types.Pointer:
+								// must have passed through a call (the recursive copy), not be the original's field itself
+								if loadedField(st.Val) != nil {
+									problems = append(problems, "the copy of "+nt.Obj().Name()+" shares its field "+fieldAddrVar(x).Name()+" with the original")
+								}
+							}
+						}
+					}
+				}
+				if from {
+					covered[nt.String()] = true
+				}
+			case *types.Map:
+				if !dominates(ta, ret) || !derivesFromCase(ret, val) {
+					return
+				}
+				if _, ok := v.(*ssa.MakeMap); !ok && !isNilGuardedReturn(ret, val) {
+					problems = append(problems, "the case for "+at.String()+" returns the original map")
+				}
+			case *types.Slice:
+				if !dominates(ta, ret) || !derivesFromCase(ret, val) {
+					return
+				}
+				if _, ok := v.(*ssa.MakeSlice); !ok && !isNilGuardedReturn(ret, val) {
+					problems = append(problems, "the case for "+at.String()+" returns the original list")
+				}
+			}
+		})
+	})
+	sort.Strings(problems)
+	return covered, problems
+}
+
+// derivesFromCase: the return hands back the case value itself (possibly boxed).
+func derivesFromCase(ret *ssa.Return, val ssa.Value) bool {
+	res := retResults(ret)
+	v := res[0]
+	if mi, ok := v.(*ssa.MakeInterface); ok {
+		v = mi.X
+	}
+	return v == val
+}
+
+// isNilGuardedReturn: `if d == nil { return d }`.
+func isNilGuardedReturn(ret *ssa.Return, val ssa.Value) bool {
+	return guardedBy(ret, true, func(cond ssa.Value) bool {
+		b, ok := cond.(*ssa.BinOp)
+		return ok && b.Op == token.EQL && b.X == val && isNilConst(b.Y)
+	}) != nil
 }
